@@ -778,10 +778,11 @@ class SharesManager(BaseManager):
         file_count = sum(
             len(directory.items) for directory in self._shared_directories
         )
-        dir_count = sum(
-            len(set(item.subdir for item in directory.items))
+        dir_count = len(set(
+            os.path.dirname(item.get_absolute_path())
             for directory in self._shared_directories
-        )
+            for item in directory.items
+        ))
         return dir_count, file_count
 
     def calculate_download_path(self, remote_path: str) -> tuple[str, str]:
